@@ -2,6 +2,7 @@
   Model driver: one request per line on stdin, one answer per line on stdout.
 -/
 import Plonk.Driver.Prog
+import Plonk.Driver.Kernels
 open Plonk Plonk.Driver
 
 def dumpState (s : PState) : String :=
@@ -30,7 +31,10 @@ def answer (line : String) : String :=
     | _ => "bad-request"
   | "shape" :: rest => summary (runProg (String.intercalate " " rest))
   | "dump" :: rest => dumpState (runProg (String.intercalate " " rest))
-  | _ => "bad-request"
+  | toks =>
+    if ["fft", "domain", "elements", "poly", "polyscaled", "binv", "lagrange", "vanish", "vcoset", "mlin", "mvan",
+        "bary", "lpi"].contains (toks.headD "") then kernelAnswer (toks.filter (· ≠ ""))
+    else "bad-request"
 
 partial def loop (h : IO.FS.Stream) (out : IO.FS.Stream) : IO Unit := do
   let line ← h.getLine
